@@ -91,7 +91,7 @@ def oracle_mesh_independence(R, tier, seed):
                 mesh = generate_mesh({"num_y": ny, "num_x": nx, "wing_type": "rect", "symmetry": sym, "span": span, "root_chord": chord,
                                       "span_cos_spacing": float(rng.choice([0.0, 0.5, 1.0])), "chord_cos_spacing": float(rng.choice([0.0, 1.0]))})
                 s = aero.aero_surface(mesh, symmetry=sym, with_viscous=True, with_wave=True, k_lam=k_lam, t_over_c_cp=np.array([0.1]))
-                p = aero.run(aero.build_aero([s], alpha=alpha, Mach=0.84))
+                p = aero.run(aero.build_aero([s], alpha=alpha, Mach=0.84, geom=True))
                 cdv = float(aero.g(p, "aero.wing_perf.CDv")[0]); cdw = float(aero.g(p, "aero.wing_perf.CDw")[0]); cl = float(aero.g(p, "aero.wing_perf.CL")[0])
                 # CDw depends on CL, which (slightly) depends on the mesh: compare CDw at the same CL via the component's formula
                 mcrit = 0.95 - 0.1 - cl / 10 - (0.1 / 80.0) ** (1.0 / 3.0)
